@@ -1,8 +1,125 @@
-use pvmc::ev::{self, Ctx};
+use pvmc::ev::{self, Ctx, Replay};
+use serde_json::{json, Value};
+use std::process::{Command, Stdio};
+use std::time::{Duration, Instant};
 
 fn usage() -> ! {
     eprintln!("usage: pvmc <C01..C24> <quick|thorough> [--replay <file>]");
     std::process::exit(2);
+}
+
+fn parse_replay(v: &Value) -> Replay {
+    Replay {
+        family: v["family"].as_str().unwrap_or("").to_string(),
+        index: v["index"].as_u64().unwrap_or(0) as usize,
+        schedule: v["schedule"]
+            .as_array()
+            .map(|a| a.iter().filter_map(|x| x.as_u64().map(|n| n as usize)).collect())
+            .unwrap_or_default(),
+        data: v.get("data").cloned().unwrap_or(Value::Null),
+    }
+}
+
+fn child_main(id: &str, tier: &str, replay: Option<Replay>) -> i32 {
+    pvmc::run::install_quiet_panic_hook();
+    let mut ctx = Ctx::new(id, tier);
+    ctx.replay = replay;
+    if !pvmc::dispatch(id, &mut ctx) {
+        eprintln!("unknown property {}", id);
+        return 2;
+    }
+    ev::finish(ctx)
+}
+
+/// Runs the check in a child process so that an abort (stack overflow, OOM) or a hang of the
+/// library is attributed to a case and reported as a violation instead of killing the check.
+fn supervise(id: &str, tier: &str, replay_json: Option<String>) -> i32 {
+    let exe = std::env::current_exe().expect("current_exe");
+    let dir = format!("{}/.progress-{}-{}", ev::verif_dir(), id, std::process::id());
+    let _ = std::fs::remove_dir_all(&dir);
+    std::fs::create_dir_all(&dir).expect("progress dir");
+    let wall_cap = Duration::from_secs(
+        std::env::var("PVMC_WALL_CAP_S").ok().and_then(|s| s.parse().ok()).unwrap_or(if tier == "quick" { 900 } else { 6 * 3600 }),
+    );
+    let run_child = |replay: Option<&str>, cap: Duration, quiet: bool| -> (Option<i32>, bool) {
+        let mut cmd = Command::new(&exe);
+        cmd.arg(id).arg(tier).env("PVMC_CHILD", "1").env("PVMC_PROGRESS", &dir);
+        if let Some(r) = replay {
+            cmd.env("PVMC_REPLAY_JSON", r);
+        }
+        if quiet {
+            cmd.stdout(Stdio::null()).stderr(Stdio::null());
+        }
+        let mut child = cmd.spawn().expect("spawn child");
+        let start = Instant::now();
+        loop {
+            match child.try_wait() {
+                Ok(Some(st)) => return (st.code(), false),
+                Ok(None) => {
+                    if start.elapsed() > cap {
+                        let _ = child.kill();
+                        let _ = child.wait();
+                        return (None, true);
+                    }
+                    std::thread::sleep(Duration::from_millis(20));
+                }
+                Err(_) => return (None, false),
+            }
+        }
+    };
+    let (code, timed_out) = run_child(replay_json.as_deref(), wall_cap, false);
+    let result = match code {
+        Some(c) if c == 0 || c == 1 || c == 2 => c,
+        _ => {
+            // abnormal end: find the culprit among the cases that were in flight
+            let candidates = ev::read_progress(&dir);
+            eprintln!(
+                "child {} ({} case(s) in flight); re-running them one at a time",
+                if timed_out { "exceeded the wall cap".to_string() } else { format!("ended abnormally ({:?})", code) },
+                candidates.len()
+            );
+            let mut confirmed: Vec<(Replay, String)> = vec![];
+            let mut reported = false;
+            for c in &candidates {
+                let rj = json!({"family": c.family, "index": c.index, "schedule": c.schedule, "data": c.data}).to_string();
+                let (cc, to) = run_child(Some(&rj), Duration::from_secs(120), false);
+                match cc {
+                    Some(0) => {}
+                    Some(1) => reported = true,
+                    Some(2) => {}
+                    other => confirmed.push((c.clone(), if to { "hang (no result within 120 s)".to_string() } else { format!("process abort ({:?}; stack overflow or fatal runtime error)", other) })),
+                }
+            }
+            if confirmed.is_empty() && !reported {
+                eprintln!("machinery error: the abnormal end could not be attributed to a case");
+                2
+            } else {
+                let _ = std::fs::create_dir_all(format!("{}/replays", ev::verif_dir()));
+                for (c, why) in &confirmed {
+                    let path = format!("{}/replays/{}-crash-{}-{}.json", ev::verif_dir(), id, c.family, c.index);
+                    let body = json!({"property": id, "tier": tier, "family": c.family, "index": c.index, "schedule": c.schedule, "data": c.data, "kind": "crash", "detail": why});
+                    let _ = std::fs::write(&path, serde_json::to_string_pretty(&body).unwrap());
+                    println!("VIOLATION property={} replay={}", id, path);
+                    println!("  kind=crash family={} index={} data={}", c.family, c.index, c.data);
+                    println!("  {}", why);
+                }
+                if replay_json.is_none() {
+                    let evd = json!({
+                        "property_id": id, "tier": tier, "seed": 0, "level": "model_checking",
+                        "coverage": {"evaluations": candidates.len(), "distinct_nontrivial": confirmed.len(), "exhaustive": false,
+                                     "samples": confirmed.iter().map(|(c, w)| json!({"family": c.family, "index": c.index, "data": c.data, "outcome": w})).collect::<Vec<_>>(),
+                                     "explanation": "the exploration aborted; only the crash triage ran"},
+                        "wall_s": 0.0, "violations": confirmed.len().max(1)
+                    });
+                    let _ = std::fs::create_dir_all(format!("{}/evidence", ev::verif_dir()));
+                    let _ = std::fs::write(format!("{}/evidence/{}.json", ev::verif_dir(), id), serde_json::to_string_pretty(&evd).unwrap());
+                }
+                1
+            }
+        }
+    };
+    let _ = std::fs::remove_dir_all(&dir);
+    result
 }
 
 fn main() {
@@ -10,7 +127,7 @@ fn main() {
     if args.len() < 3 {
         usage();
     }
-    let id = args[1].as_str();
+    let id = args[1].clone();
     let tier = match std::env::var("VERIF_TIER") {
         Ok(t) if t == "quick" || t == "thorough" => t,
         _ => args[2].clone(),
@@ -18,35 +135,29 @@ fn main() {
     if tier != "quick" && tier != "thorough" {
         usage();
     }
-    pvmc::run::install_quiet_panic_hook();
-    let mut ctx = Ctx::new(id, &tier);
+    if std::env::var("PVMC_CHILD").is_ok() {
+        let replay = std::env::var("PVMC_REPLAY_JSON")
+            .ok()
+            .and_then(|s| serde_json::from_str::<Value>(&s).ok())
+            .map(|v| parse_replay(&v));
+        std::process::exit(child_main(&id, &tier, replay));
+    }
+    let mut replay_json = None;
+    let mut tier = tier;
     if let Some(pos) = args.iter().position(|a| a == "--replay") {
         let path = args.get(pos + 1).unwrap_or_else(|| usage());
         let text = std::fs::read_to_string(path).unwrap_or_else(|e| {
             eprintln!("cannot read replay file {}: {}", path, e);
             std::process::exit(2);
         });
-        let v: serde_json::Value = serde_json::from_str(&text).unwrap_or_else(|e| {
+        let v: Value = serde_json::from_str(&text).unwrap_or_else(|e| {
             eprintln!("bad replay file: {}", e);
             std::process::exit(2);
         });
-        let family = v["family"].as_str().unwrap_or("").to_string();
-        let index = v["index"].as_u64().unwrap_or(0) as usize;
-        let schedule: Vec<usize> = v["schedule"]
-            .as_array()
-            .map(|a| a.iter().filter_map(|x| x.as_u64().map(|n| n as usize)).collect())
-            .unwrap_or_default();
         if let Some(t) = v["tier"].as_str() {
-            ctx.tier = t.to_string();
+            tier = t.to_string();
         }
-        ctx.replay = Some((family, index, schedule));
+        replay_json = Some(v.to_string());
     }
-    match id {
-        "C18" => pvmc::c18::run(&mut ctx),
-        _ => {
-            eprintln!("unknown property {}", id);
-            std::process::exit(2);
-        }
-    }
-    std::process::exit(ev::finish(ctx));
+    std::process::exit(supervise(&id, &tier, replay_json));
 }
